@@ -36,11 +36,11 @@ Decode(bytes) == DecRun(DecInit, bytes, 1)
 
 Bcs(chips) == {chips[i].bc : i \in 1..Len(chips)}
 
-\* verdict for one lane: "fatal" | "panic" | "err" | "ok" (with its bunch counter)
+\* verdict for one lane: "fatal" | "err" | "ok" (with its bunch counter)
 \* ib: inner barrel; laneNo: lane number; (custom chip count / order checks not modelled here)
 LaneVerdictD(d, ib, laneNo) ==
    IF d.fatal THEN [v |-> "fatal", bc |-> 0]
-   ELSE IF d.chips = << >> THEN [v |-> "panic", bc |-> 0]            \* code: unwrap on empty (known defect)
+   ELSE IF d.chips = << >> THEN [v |-> "err", bc |-> 0]              \* no chip header / empty frame in the lane data: chip count error
    ELSE LET bcErr == Cardinality(Bcs(d.chips)) > 1
             cntErr == ib /\ Len(d.chips) # 1
             ordErr == ib /\ ~cntErr /\ d.chips[1].id # laneNo
